@@ -109,11 +109,20 @@ def gen_cases(ck):
     quick = ck.tier == "quick"
     cases = []
 
-    def add(op, tree, tags, **kw):
-        c = {"id": len(cases), "op": op, "tree": tree, "frame": eg.jtext(tree), "tags": tags}
+    def add(op, tree, tags, frame=None, **kw):
+        c = {"id": len(cases), "op": op, "tree": tree, "frame": frame or eg.jtext(tree), "tags": tags}
         c.update(kw)
         cases.append(c)
         return c
+
+    ESC_MODES = ("one", "first", "all")
+
+    def add_escaped(op, tree, tags, k, **kw):
+        """The same object with its member names written with \\uXXXX escapes (names are decoded JSON
+        strings: the spelling must not matter)."""
+        mode = ESC_MODES[k % 3]
+        return add(op, tree, dict(tags, names="escaped_" + mode),
+                   frame=eg.jtext_esc(tree, rng, mode, top_only=(k % 2 == 1)), **kw)
 
     cdir = os.path.join(VERIF, "corpus")
     for fn in sorted(os.listdir(cdir)) if os.path.isdir(cdir) else []:
@@ -129,11 +138,14 @@ def gen_cases(ck):
     # ---- calls
     for mname in [m for _ in range(rounds) for m in eg.MTYPES]:
         frames = call_frames(rng, mname)
-        for tags, ms in frames:
+        for k, (tags, ms) in enumerate(frames):
             ms = list(ms)
             if rng.random() < 0.5:
                 rng.shuffle(ms)
             add("call", eg.Obj(ms), dict(tags, **{"class": "call"}), m=mname)
+            # flags, `method`, `parameters` and the method's own members spelled with escapes
+            if isinstance(tags["extra"], int):
+                add_escaped("call", eg.Obj(ms), dict(tags, **{"class": "call_escaped_names"}), k, m=mname)
         # every order of the members
         small = [f for f in frames if 2 <= len(f[1]) <= 5 and f[0]["extra"] != "escaped_key"]
         rng.shuffle(small)
@@ -159,11 +171,19 @@ def gen_cases(ck):
                 c = add("reply", eg.Obj(perm), dict(tags, **{"class": "error"}), p=pname, e=ename)
                 if grp:
                     c["spell"] = grp
+            c = add_escaped("reply", eg.Obj(orders[-1]), dict(tags, **{"class": "error_escaped_names"}),
+                            len(cases), p=pname, e=ename)
+            if grp:
+                c["spell"] = grp
     # ---- success replies
     for pname in eg.PTYPES:
         for tags, ms, _ in success_frames(rng, pname):
+            ename = rng.choice(list(eg.ETYPES))
             for perm in eg.permutations_of(ms, rng, 6 if quick else 24):
-                add("reply", eg.Obj(perm), dict(tags, **{"class": "reply"}), p=pname, e=rng.choice(list(eg.ETYPES)))
+                add("reply", eg.Obj(perm), dict(tags, **{"class": "reply"}), p=pname, e=ename)
+            if ms:
+                add_escaped("reply", eg.Obj(ms), dict(tags, **{"class": "reply_escaped_names"}), len(cases),
+                            p=pname, e=ename)
     # ---- proxy methods without output: the three spellings; with output for contrast
     for meth, (unit, ename, pname) in eg.PROXY.items():
         for extra in ([], [("continues", False)], [("x-unknown", 1)]):
@@ -172,6 +192,11 @@ def gen_cases(ck):
                 ms = [m for m in [("parameters", pv)] + extra if m[1] is not eg.ABSENT]
                 for perm in eg.permutations_of(ms, rng, 2):
                     c = add("proxy", eg.Obj(perm), {"class": "proxy", "parameters": spell}, meth=meth)
+                    if unit:
+                        c["spell"] = (gkey, spell)
+                if ms:
+                    c = add_escaped("proxy", eg.Obj(ms), {"class": "proxy_escaped_names", "parameters": spell},
+                                    len(cases), meth=meth)
                     if unit:
                         c["spell"] = (gkey, spell)
         for v in eg.P_GOOD[pname][:3] + eg.P_BAD[pname][:2]:
@@ -315,6 +340,24 @@ def main():
                              {"case": pub(c), "impl": r, "encoded": r[part]["enc"], "decoded_again": r2}, tag="rt%d" % c["id"])
         n_rt += 1
 
+    # ---- the deserializers that never lend member names (from_value, from_reader) must agree with from_str
+    n_paths = 0
+    for c, r in zip(cases, results):
+        if c["op"] != "call" or not r.get("owned") or r.get("panic") or r.get("crash"):
+            continue
+        want = r.get("dec") and r["dec"]["v"]
+        for part, name, applies in (("fr", "serde_json::from_reader", True),
+                                    ("fv", "serde_json::from_value", eg.no_dups_deep(c["tree"]))):
+            if not applies:
+                continue
+            n_paths += 1
+            got = r.get(part) and r[part]["v"]
+            if got != want:
+                ck.violation("Call<%s> decoded through %s differs from serde_json::from_str: %s"
+                             % (c["m"], name, c["frame"][:120]),
+                             {"case": pub(c), "impl": r, "path": name}, tag="path%d" % c["id"])
+                break
+
     # ---- schema of the encodings
     n_schema = 0
     for c, r in list(zip(cases, results)) + list(zip(second, results2)):
@@ -454,6 +497,8 @@ def main():
         "traces_validated_against_impl": sum(len(v) for v in buckets.values()),
         "case_classes": hist, "decoded_calls_by_flag_set(oneway,more,upgrade)": flagsets,
         "round_trips_checked": n_rt, "encodings_checked_against_schema": n_schema,
+        "from_value_and_from_reader_decodes_compared_with_from_str": n_paths,
+        "frames_with_escaped_member_names": sum(1 for c, _ in allc if "names" in c["tags"]),
         "permutation_groups": n_perm_groups, "no_parameters_spelling_groups": n_spell_groups,
         "method_types": sorted(eg.MTYPES), "error_types": sorted(eg.ETYPES) + ["varlink_service::Error"],
         "parameter_types": sorted(eg.PTYPES), "proxy_methods": sorted(eg.PROXY),
